@@ -85,6 +85,7 @@ func Calls() []Call {
 		{"shape.GetSpatialIdsOnPoints", func() string { return canon(shape.GetSpatialIdsOnPoints(shPts, 20)) }},
 		{"shape.GetPointOnExtendedSpatialId(vertex)", func() string { return pts(shape.GetPointOnExtendedSpatialId(shIDs[0], enum.Vertex)) }},
 		{"shape.GetPointOnSpatialId(center)", func() string { return pts(shape.GetPointOnSpatialId(shSp[0], enum.Center)) }},
+		{"shape.GetPointOnExtendedSpatialId(center, another voxel)", func() string { return pts(shape.GetPointOnExtendedSpatialId(shIDs[3], enum.Center)) }},
 		{"shape.GetExtendedSpatialIdsOnLine", func() string { return canon(shape.GetExtendedSpatialIdsOnLine(shP1, shP2, 20, 20)) }},
 		{"shape.GetSpatialIdsOnLine", func() string { return canon(shape.GetSpatialIdsOnLine(shP1, shP2, 19)) }},
 		{"shape.ConvertPointListToProjectedPointList", func() string {
